@@ -214,6 +214,9 @@ def run(main: Callable[[], Any], controller: Controller | None = None, *, eager:
         except BaseException as exc:  # noqa: BLE001
             error = exc
     finally:
+        stop = getattr(loop.controller, "on_stop", None)
+        if stop is not None:
+            stop()  # observation ends here: what follows is only the harness cleaning up
         try:
             _drain(loop)
         finally:
